@@ -47,9 +47,14 @@ type dirEnt struct {
 	isDir bool
 }
 
-func (d dirEnt) Name() string               { return d.name }
-func (d dirEnt) IsDir() bool                { return d.isDir }
-func (d dirEnt) Type() fs.FileMode          { if d.isDir { return fs.ModeDir }; return 0 }
+func (d dirEnt) Name() string { return d.name }
+func (d dirEnt) IsDir() bool  { return d.isDir }
+func (d dirEnt) Type() fs.FileMode {
+	if d.isDir {
+		return fs.ModeDir
+	}
+	return 0
+}
 func (d dirEnt) Info() (fs.FileInfo, error) { return nil, errors.New("no info") }
 
 func (m *modelTSM) rec(op, p string, data []byte) {
@@ -278,7 +283,12 @@ func TestC17(t *testing.T) {
 			ename, _, _ := m.split(digestWrites[0].path)
 			ent := m.entries[ename]
 			if ent == nil || !ent.bound || ent.index != idx {
-				gen.Fail(t, gen.Violation{Key: "wrong-register", Oracle: "the extend lands on the RTMR entry bound to the requested index", Detail: fmt.Sprintf("%s: wrote to entry %q (bound=%v index=%d)", desc, ename, ent != nil && ent.bound, func() int { if ent != nil { return ent.index }; return -99 }()), Replay: rp})
+				gen.Fail(t, gen.Violation{Key: "wrong-register", Oracle: "the extend lands on the RTMR entry bound to the requested index", Detail: fmt.Sprintf("%s: wrote to entry %q (bound=%v index=%d)", desc, ename, ent != nil && ent.bound, func() int {
+					if ent != nil {
+						return ent.index
+					}
+					return -99
+				}()), Replay: rp})
 				return
 			}
 			if before != "" {
